@@ -5,17 +5,21 @@ import vlib
 import perscheck
 
 THEOREMS = {"Properties.C12": [
-    "C12_full_restore_exact", "C12_chain_restore_exact", "C12_chain_restore_exact_after_prune",
-    "C12_incremental_after_snapshot_refuted", "C12_prune_parent_refuted", "C12_prune_keeps_parents_refuted",
-    "C12_prune_subset", "C12_tamper_rejected_before_clear", "C12_no_clear_without_confirmation",
-    "C12_metadata_irrelevant", "C12_nonvacuous"]}
+    "C12_full_restore_exact", "C12_chain_restore_exact", "C12_chain_contains_manifest_snapshot",
+    "C12_prune_keeps_parents", "C12_chain_restore_exact_after_prune", "C12_prune_subset",
+    "C12_tamper_rejected_before_clear", "C12_no_clear_without_confirmation", "C12_metadata_irrelevant",
+    "C12_old_incremental_after_snapshot_witness", "C12_incremental_after_snapshot_now_exact",
+    "C12_old_prune_parent_witness", "C12_ancestor_removed_by_hand", "C12_nonvacuous", "C12_prune_still_prunes"]}
 
 PINS = {"Properties.C12": {
     "_preamble": "From Coq Require Import List NArith Bool. From Kyro Require Import Model.Backup Proofs.BackupProofs. Import ListNotations. Open Scope N_scope.",
-    "C12_chain_restore_exact": "forall st rch bf tip d m o, chain_ok rch bf d m -> hd_error rch = Some tip -> NoDup (map b_id rch) -> store_sub st rch -> o_dry o = false -> ~ KnownC12 st rch bf d m -> exists t', restore_by_id st [] (b_id tip) o = (None, t') /\\ recovery_view t' = recovery_view (strip d) /\\ restorable t' = true",
+    "C12_chain_restore_exact": "forall sc st rch tip d m o, chain_ok sc rch d m -> hd_error rch = Some tip -> NoDup (map b_id rch) -> store_sub st rch -> o_dry o = false -> ~ KnownC12 st rch -> exists t', restore_by_id st [] (b_id tip) o = (None, t') /\\ recovery_view t' = recovery_view (strip d) /\\ restorable t' = true",
+    "C12_prune_keeps_parents": "forall now p st b pid y, NoDup (map b_id st) -> In b (prune_store now p st) -> b_parent b = Some pid -> In y st -> b_id y = pid -> In y (prune_store now p st)",
+    "C12_chain_restore_exact_after_prune": "forall sc now p st rch tip d m o, chain_ok sc rch d m -> hd_error rch = Some tip -> NoDup (map b_id rch) -> NoDup (map b_id st) -> (forall b, In b rch -> find_b st (b_id b) = Some b) -> o_dry o = false -> In tip (prune_store now p st) -> exists t', restore_by_id (prune_store now p st) [] (b_id tip) o = (None, t') /\\ recovery_view t' = recovery_view (strip d) /\\ restorable t' = true",
     "C12_full_restore_exact": "forall d m id ts aux o, wf_sdir d m -> o_dry o = false -> exists b, create_full d id ts aux = Ok b /\\ b_files b = view_files d m /\\ restore_by_id [b] [] id o = (None, view_files d m) /\\ recovery_view (view_files d m) = recovery_view (strip d) /\\ restorable (view_files d m) = true",
 }}
 
+RECORDED = "C12-archive-member-name-not-covered-by-checksum"
 TAGS = ("bad_create", "bad_restore", "bad_prune", "premise_bad")
 
 
@@ -51,7 +55,9 @@ def report(ctx, fails):
     unknown = {}
     for f in fails:
         cls = f.get("class")
-        kf = ctx.classify_known(cls) if cls else None
+        # only the recorded class is looked up; the two repaired classes (prune deletes a parent,
+        # incremental after a snapshot) keep their labels but are plain violations again
+        kf = ctx.classify_known(cls) if cls == RECORDED else None
         if kf:
             ctx.known_hit(kf, describe(f))
         else:
@@ -70,7 +76,7 @@ def run(ctx):
     ctx.trusted += [
         "Model/Backup.v is a hand-written model of engine/src/backup.rs (create_full_backup, create_incremental_backup, restore_from_backup_with_options, restore_point_in_time_with_options, clear_data_directory, list/prune_backups); it is tied to the real BackupManager/RestoreManager every run: archive membership, refusals, chain building, verification, clear guard, dry run, extraction and point-in-time selection on fabricated directories, prune on synthetic timelines, all compared inside coqc",
         "abstraction: file contents are tokens, the MANIFEST is structured; 'archive present, well-formed and CRC sum equal to metadata.checksum' is one boolean per backup (b_ok); CRC-32 detecting the alteration of a payload is a premise (the harness measures which single-byte alterations are in fact rejected)",
-        "premises of the exactness theorems, validated on the real engine's directories inside coqc every run: wf_sdir (MANIFEST lists exactly the on-disk segments in increasing id order and its snapshot exists) and evolves (segments an incremental does not select are unchanged since the parent: closed segments are immutable, appends move mtime forward)",
+        "premises of the exactness theorems, validated on the real engine's directories inside coqc every run: wf_sdir (MANIFEST lists exactly the on-disk segments in increasing id order and its snapshot exists), evolves (segments an incremental does not select are unchanged since the parent: closed segments are immutable, appends move mtime forward) and snaps_agree (a snapshot file name denotes one content across the directories of a history)",
         "recovery_view (MANIFEST, the snapshot it names, the listed segments) is taken to determine the recovered collection; the engine-level oracle (start the real engine on the restored directory, compare the census with the one recorded at backup time) checks this end to end",
         "not modelled: legacy MANIFEST layout, WAL names without a numeric id, the source-fingerprint retry loop (backups are taken at quiescent points), parent cycles in fabricated metadata (the code would loop), S3 transport",
         "start-up decision replicated from kyrodb_server main (kvh_pers::eng::start): strict recover when MANIFEST exists",
